@@ -172,6 +172,20 @@ fn replay(path: &str) -> i32 {
                 }
             }
         }
+        Some("mass_level") => {
+            let (seed, n) = (doc["seed"].as_u64().unwrap_or(0), doc["n"].as_u64().unwrap_or(0) as usize);
+            let r = if doc["env"].as_u64().unwrap_or(0) == 0 { extra::mass_level_records::<bourse_de::Env<10>>(seed, n) } else { extra::mass_level_records::<bourse_de::MarketEnv<2, 10>>(seed, n) };
+            match r {
+                Err((k, d)) => {
+                    println!("REPRODUCED property=C11 {}: {}", k, d);
+                    1
+                }
+                Ok(_) => {
+                    println!("NOT-REPRODUCED");
+                    0
+                }
+            }
+        }
         Some("c02_views_only") => {
             let h: ops::History = serde_json::from_value(doc["history"].clone()).expect("history");
             match checks_book::replay_views_only(&h) {
